@@ -23,8 +23,12 @@ import (
 
 // BatchCrash describes a worker which died on a case.
 type BatchCrash struct {
-	Index  int // index (within the whole case list) of the culprit case
-	Result *Result
+	// Index of the culprit case within the whole case list, or -1 if the
+	// worker died with several cases in flight (see Suspects; each suspect is
+	// then re-run alone and reported separately if it dies again).
+	Index    int
+	Suspects []int
+	Result   *Result
 }
 
 var batchSeq int64
@@ -95,6 +99,16 @@ func (r *Run) RunBatchesOpts(mode string, cases []interface{}, o BatchOpts) ([]j
 			Env:      o.Env,
 			Dir:      dir,
 			Watchdog: o.Watchdog,
+			// a worker is only "hung" if its result/progress files stop growing too
+			OutProgress: func() int64 {
+				var n int64
+				for _, f := range []string{"out.jsonl", "progress"} {
+					if st, err := os.Stat(filepath.Join(dir, f)); err == nil {
+						n += st.Size()
+					}
+				}
+				return n
+			},
 		})
 		finished := map[int]bool{}
 		if out, err := os.Open(filepath.Join(dir, "out.jsonl")); err == nil {
@@ -151,12 +165,21 @@ func (r *Run) RunBatchesOpts(mode string, cases []interface{}, o BatchOpts) ([]j
 			}
 			untouched = nil
 		default:
+			cmu.Lock()
+			crashes = append(crashes, BatchCrash{Index: -1, Suspects: append([]int(nil), suspects...), Result: res})
+			cmu.Unlock()
 			for _, i := range suspects {
 				more = append(more, job{[]int{i}})
 			}
 		}
 		if len(untouched) > 0 {
 			more = append(more, job{untouched})
+		}
+		cmu.Lock()
+		tooMany := len(crashes) > 40
+		cmu.Unlock()
+		if tooMany {
+			more = nil // enough witnesses: do not spend time on finer attribution
 		}
 		if len(more) > 0 {
 			qmu.Lock()
@@ -241,4 +264,16 @@ func BatchMainPar(dir string, par int, fn func(i int, raw json.RawMessage) inter
 		mu.Unlock()
 	})
 	return 0
+}
+
+// Any returns the culprit index, or the first suspect when the crash could
+// not be attributed to a single case.
+func (c BatchCrash) Any() int {
+	if c.Index >= 0 || len(c.Suspects) == 0 {
+		if c.Index < 0 {
+			return 0
+		}
+		return c.Index
+	}
+	return c.Suspects[0]
 }
